@@ -1,3 +1,5 @@
+//go:build verif && !no_c19
+
 package main
 
 import (
